@@ -81,7 +81,9 @@ def dec_field(name, arr):
                 i = _as_id(r[0])
                 ok = i is not None and r.shape == (SOL_DIM,) and np.array_equal(r, enc_solution([i])[0])
             elif name == "objective":
-                v = _as_id(r)
+                # (a fraction below 2^-16 is allowed: with a float32 search archive the told float64 objectives carry 2^-30, see c04.tell_payload)
+                rv = float(r)
+                v = _as_id(math.floor(rv)) if math.isfinite(rv) and rv - math.floor(rv) < 2.0 ** -16 else None
                 i = None if v is None else int(v % QSCALE)
                 ok = i is not None
             elif name == "measures":
@@ -190,7 +192,7 @@ def make_spy_emitter_class():
     return SpyEmitter
 
 
-def make_spy_archive(kind, extra, seed=0):
+def make_spy_archive(kind, extra, seed=0, dtype=None):
     """kind: grid | grid_mae | proximity | proximity_lc.  Returns a public subclass instance that records the insertion
     calls it ACCEPTED (decoded ids per field) and the feedback it returned."""
     from ribs.archives import GridArchive, ProximityArchive
@@ -202,6 +204,7 @@ def make_spy_archive(kind, extra, seed=0):
             self.feedback = []   # per accepted call: list of feedback rows
             self.field_order = ()
             self._depth = 0
+            self.raw_objectives = []   # per accepted outermost call: the objective values as received (float64 copy; None when objective is None)
 
         def _cols(self, solution, objective, measures, fields, single):
             names = ["objective", "measures"] + [f for f in self.field_order if f in fields] + \
@@ -225,6 +228,7 @@ def make_spy_archive(kind, extra, seed=0):
             if self._depth == 0:
                 self.calls.append([0, self._cols(solution, objective, measures, fields, False)])
                 self.feedback.append(info_rows(ret))
+                self.raw_objectives.append(None if objective is None else [float(x) for x in np.asarray(objective, dtype=np.float64).reshape(-1)])
             return ret
 
         def add_single(self, solution, objective, measures, **fields):
@@ -236,9 +240,15 @@ def make_spy_archive(kind, extra, seed=0):
             if self._depth == 0:
                 self.calls.append([1, self._cols(solution, objective, measures, fields, True)])
                 self.feedback.append(info_rows(ret))
+                self.raw_objectives.append(None if objective is None else [float(np.asarray(objective, dtype=np.float64))])
             return ret
 
     ef = {k: EXTRA_FIELDS[k] for k in extra}
+    if dtype is not None:
+        _ctor = SpyArchive
+
+        def SpyArchive(**kw):   # noqa: N802  (same call sites below, one more argument)
+            return _ctor(dtype=dtype, **kw)
     if kind == "grid":
         a = SpyArchive(solution_dim=SOL_DIM, dims=[GRID, GRID], ranges=[(0, GRID), (0, GRID)], extra_fields=ef)
     elif kind == "grid_mae":
